@@ -154,6 +154,18 @@ class FileSplicer:
         src = self.src
         an = fn_anatomy(src, it)
         applied = []
+        # N6: a wildcard parameter `_: T` gets a name (Verus wants plain identifier patterns)
+        q = it.kw_si
+        lim = it.body_open if it.body_open >= 0 else src.n()
+        while q < lim and not src.is_p(q, '('): q += 1
+        if q < lim:
+            pc_ = src.match(q); nu = 0; k_ = q + 1
+            while k_ < pc_:
+                t_ = src.t(k_)
+                if t_.kind == 'punct' and t_.text in OPEN: k_ = src.match(k_) + 1; continue
+                if t_.kind == 'ident' and t_.text == '_' and src.is_p(k_ + 1, ':') and (src.is_p(k_ - 1, '(') or src.is_p(k_ - 1, ',')):
+                    self.ed.replace(t_.start, t_.end, 'vx_u%d' % nu); nu += 1; applied.append('N6')
+                k_ += 1
         subs = d.subs
         props = []
         implicit = None
@@ -595,9 +607,14 @@ class FileSplicer:
                             if i_ < len(argsx):
                                 if not kinds: raise SpliceError('lost anchor: fmtwrite of fn %s names too few placeholder kinds' % key)
                                 kd = kinds.pop(0)
-                                out.append('%s(%s, %s); ' % ({'str': 'vx_put_str', 'u64': 'vx_put_u64', 'usize': 'vx_put_usize'}[kd], bufe, argsx[i_]))
+                                out.append(('%s(%s, %s); ' if kd == 'str' else '%s(%s, &%s); ') % ({'str': 'vx_put_str', 'u64': 'vx_put_u64', 'usize': 'vx_put_usize', 'u8': 'vx_put_u8d', 'u16': 'vx_put_u16', 'u32': 'vx_put_u32'}[kd], bufe, argsx[i_]))
                         out.append('vx_fmt_ok() }')
-                        self.ed.replace(src.t(k).start, src.t(pc).end, ''.join(out))
+                        k0 = k
+                        # a path prefix `::std::` / `std::` in front of the macro name goes with it
+                        if src.is_p(k0 - 1, ':') and src.is_p(k0 - 2, ':') and src.is_id(k0 - 3, 'std'):
+                            k0 -= 3
+                            if src.is_p(k0 - 1, ':') and src.is_p(k0 - 2, ':'): k0 -= 2
+                        self.ed.replace(src.t(k0).start, src.t(pc).end, ''.join(out))
                         nw += 1; k = pc + 1; continue
                     k += 1
                 if nw == 0 and not s.optional: raise SpliceError('lost anchor: fn %s has no write!(' % key)
